@@ -196,7 +196,9 @@ def run(ctx):
                  'keep_content': True, 'timeout_s': 90}
         ytree = exported[(mode, style)]
         externs = ''.join('@extern "%s"\n' % p for p in sorted(ytree))
-        ext = {'files': dict({'d.pydjinni': externs + dep}, **ytree), 'options': opts, 'ops': [['parse', 'd.pydjinni']] + [['generate', t] for t in TARGETS],
+        # the dependant is parsed twice on one configured context (a build script with several IDL files, the language server): the second
+        # parse must see the external types exactly like the first
+        ext = {'files': dict({'d.pydjinni': externs + dep}, **ytree), 'options': opts, 'ops': [['parse', 'd.pydjinni'], ['parse', 'd.pydjinni']] + [['generate', t] for t in TARGETS],
                'keep_content': True, 'timeout_s': 90}
         cases += [local, ext]
         info.append((f, mode, style))
